@@ -43,7 +43,9 @@ def main():
         tier = a[a.index("--tier") + 1]
     wt = "/tmp/seed-confirm-" + sid
     subprocess.run(["git", "-C", "/repo", "worktree", "remove", "--force", wt], stdout=subprocess.DEVNULL, stderr=subprocess.DEVNULL)
-    rc, out = run(["git", "-C", "/repo", "worktree", "add", "--detach", wt, "HEAD"])
+    base = os.environ.get("SEED_BASE", "HEAD")
+    rc, out = run(["git", "-C", "/repo", "worktree", "add", "--detach", wt, base])
+    base_commit = subprocess.run(["git", "-C", "/repo", "rev-parse", "--short", base], stdout=subprocess.PIPE, text=True).stdout.strip()
     if rc != 0:
         print(out)
         return 2
@@ -91,7 +93,7 @@ def main():
     shutil.copy(demo, os.path.join(d, "demo.rs"))
     meta = {"id": sid, "property": prop, "summary": am.get("summary", ""), "needs": am.get("needs", ""), "files": am.get("files", []),
             "source": "independent sub-agent given only the property text and a scratch worktree",
-            "confirmed": ran, "detected_by": detected}
+            "confirmed": ran, "detected_by": detected, "base_commit": base_commit}
     json.dump(meta, open(os.path.join(d, "meta.json"), "w"), indent=1)
     print(sid, "detected_by", {k: v["exit"] for k, v in detected.items()})
     return 0
